@@ -623,6 +623,8 @@ func Check(sc *Scn, x *vsched.Exec) []vexplore.Finding {
 				}
 			}
 		}
+	}
+	if x.Verdict == vsched.VOK || x.Verdict == vsched.VHorizon {
 		if exp, ok := expectedJoin(sc); ok {
 			for k, want := range exp {
 				got := o.content[k]
@@ -637,6 +639,8 @@ func Check(sc *Scn, x *vsched.Exec) []vexplore.Finding {
 				}
 			}
 		}
+	}
+	if x.Verdict == vsched.VOK {
 		if o.out != 0 || len(o.byPtr) != 0 {
 			fs = append(fs, vexplore.Finding{Clause: "not-zero-at-idle", Features: map[string]string{}, Detail: fmt.Sprintf("%d events still out of the pool at idle", o.out)})
 		}
@@ -693,7 +697,7 @@ func vplugQuiet() { vplug.Quiet() }
 // replaced by one event whose field is the concatenation, other events unchanged, in order.
 func expectedJoin(sc *Scn) (map[string][]string, bool) {
 	chain := strings.Join(sc.Actions, ",")
-	if chain != "join" && chain != "discard,join" {
+	if chain != "join" && chain != "discard,join" && chain != "joinmatch" {
 		return nil, false
 	}
 	if strings.Contains(sc.Sends, "f") {
@@ -717,6 +721,16 @@ func expectedJoin(sc *Scn) (map[string][]string, bool) {
 				continue // dropped before the join sees it
 			}
 			m, has := fieldM(e.JSON)
+			if chain == "joinmatch" && cur[k] == nil && !strings.Contains(e.JSON, `"t":"j"`) {
+				// the join is applied to matching events only - except while it holds a run: a busy action is sent every
+				// event of the stream, so a non-matching event ends the run like any other non-continuing line
+				if has {
+					out[k] = append(out[k], m)
+				} else {
+					out[k] = append(out[k], "<none>")
+				}
+				continue
+			}
 			switch {
 			case has && strings.HasPrefix(m, "S"):
 				flush(k)
